@@ -79,3 +79,44 @@ func symxC02() {
 	b.cancel()
 	rt.Quiesce()
 }
+
+// symxC02Burst: a burst of acknowledged publishes while the writer is held up (its first
+// QoS>0 delivery waits 100 ms for a usable packet identifier): more log entries than the writer
+// queue has slots pile up; once the writer resumes every one of them reaches the subscriber.
+func symxC02Burst() {
+	n := rt.Param("burst", 30)
+	base := uint64(rt.Int("first_offset", 0, 2000))
+	b := symxNewBroker(1, base)
+	p := b.start(nil)
+	pubS, pubC := b.session("pub", "cp", "m", 30)
+	subS, subC := b.session("sub", "cs", "m", 30)
+	subQos := int32(rt.Int("sub_qos", 0, 2))
+	rt.Assert(p.proc.Process(b.ctx, subS, subC, &packet.Subscribe{Header: &packet.Header{}, MessageId: 1, Topic: [][]byte{[]byte("t")}, Qos: []int32{subQos}}) == nil, "C02.subscribe_ok")
+	rt.Quiesce()
+	for k := 0; k < n; k++ {
+		symxTick()
+		err := p.proc.Process(b.ctx, pubS, pubC, &packet.Publish{Header: &packet.Header{Qos: 1}, MessageId: int32(100 + k), Topic: []byte("t"), Payload: []byte{byte(k)}})
+		rt.Assert(err == nil, "C02.publish_accepted")
+		// the burst arrives inside the 100 ms the writer spends on its first identifier: the engine's
+		// clock stands still across Quiesce, a native run must not pause between the publishes
+		if !rt.Native() {
+			rt.Quiesce()
+		}
+	}
+	rt.Quiesce()
+	acked := symxCount(pubC.written(), packet.PUBACK)
+	rt.Assert(acked == n, "C02.stored_publish_is_acknowledged")
+	symxPoolRetryWait(3)
+	var seen [256]int
+	for _, g := range symxPublishes(subC.written()) {
+		if len(g.Payload) == 1 {
+			seen[g.Payload[0]]++
+		}
+	}
+	for k := 0; k < n; k++ {
+		rt.Assert(seen[k] >= 1, "C02.acknowledged_publish_reaches_connected_subscriber")
+	}
+	rt.Cover(subQos > 0, "C02.burst_behind_a_held_up_writer")
+	b.cancel()
+	rt.Quiesce()
+}
